@@ -340,19 +340,25 @@ func CheckC08(run *ev.Run) {
 	if run.Tier == "thorough" {
 		nReach = 4
 	}
-	routePool := []string{"/", "/x", "/x/{id}", "/x/{id}/y", "/x-y", "/X", "/x.json", "/y/", "/z/{a}/{b}"}
+	routePool := []string{"/", "/x", "/x/{id}", "/x/{id}/y", "/x-y", "/X", "/x.json", "/y/", "/z/{a}/{b}", "/w/{id}/", "/v/{a}/{b}/"}
 	for k := 0; k < nReach; k++ {
 		var ops []c08op
 		seen := map[string]bool{}
 		for _, p := range routePool {
-			if p != "/" && r.Chance(1, 4) {
+			always := p == "/" || strings.HasSuffix(p, "}/") // the root and templated paths with a trailing slash are in every spec
+			if !always && r.Chance(1, 4) {
 				continue
 			}
+			n0 := len(ops)
 			for _, m := range collMeths {
 				if r.Chance(1, 2) && !seen[m+p] {
 					seen[m+p] = true
 					ops = append(ops, c08op{Method: m, Path: p, ID: fmt.Sprintf("op%d", len(ops))})
 				}
+			}
+			if always && len(ops) == n0 {
+				seen["get"+p] = true
+				ops = append(ops, c08op{Method: "get", Path: p, ID: fmt.Sprintf("op%d", len(ops))})
 			}
 		}
 		if len(ops) == 0 {
